@@ -83,10 +83,10 @@ class Stub:
 
 
 def generate(tier, seed):
-    n = 600 if tier == "quick" else 100000
+    n = 1500 if tier == "quick" else 100000
     per = 15
     cases = [{"kind": "req", "k": k, "n": per} for k in range(n // per)]
-    for k in range(30 if tier == "quick" else 1000):
+    for k in range(80 if tier == "quick" else 1000):
         cases.append({"kind": "all", "k": k})
     return cases
 
